@@ -64,8 +64,11 @@ var textPools = map[string][]string{
 	"cjk":       {"日本", "語", "한글"},
 	"astral":    {"😀", "𝔘𝔫", "🜲"},
 	"blank":     {" ", "  ", " ", "\t"},
+	// backslashes that are NOT escapes (only \[ and \] are): each one is a character of the text. Every entry
+	// ends with another character, so that no backslash ever stands directly before a marker's bracket.
+	"backslash": {"\\\\.", "a\\b", "\\\\\\\\-", "\\n", "x\\\\y"},
 }
-var textPoolNames = []string{"ascii", "ascii", "multibyte", "cjk", "astral", "blank", "blank"}
+var textPoolNames = []string{"ascii", "ascii", "multibyte", "cjk", "astral", "blank", "blank", "ascii", "multibyte", "cjk", "astral", "blank", "blank", "ascii", "backslash"}
 
 func (g *mkGen) feat(f string) { g.feats[f] = true }
 
@@ -99,6 +102,9 @@ func (g *mkGen) chunk() {
 		v := textPools[pool]
 		b.WriteString(v[r.Intn(len(v))])
 		g.feat("text:" + pool)
+		if pool == "backslash" {
+			g.backslash = true
+		}
 	}
 	s := b.String()
 	rs := []rune(s)
